@@ -14,7 +14,7 @@ RULE = ("random shots (winds, inclined, canted, all tables) x request families: 
         "request, variant); non-trivial when the variant differs from the base in at least one request parameter and "
         "at least 2 rows are shared")
 MUST_OBSERVE = ["request_pairs", "row_pairs_compared", "variant_extra", "variant_longer", "variant_coarser", "variant_finer",
-                "variant_time_step", "subset_checks", "extra_only_rows_checked", "rangeerror_results", "variant_other_step", "variant_sub_step"]
+                "variant_time_step", "subset_checks", "same_calculator_requests", "fresh_calculator_requests", "extra_only_rows_checked", "rangeerror_results", "variant_other_step", "variant_sub_step"]
 ASSUMPTIONS = ["rows are matched by distance to 1e-9 relative among rows carrying the RANGE flag; the terminal row of an "
                "incomplete trajectory and the flag-less 'second point' row are not range-card rows and are not compared"]
 REL = 1e-9
@@ -68,17 +68,28 @@ def check_case(ctx, case):
     shot = build.shot(case["shot"])
     cfg = case.get("config")
     base = case["base"]
-    rows_a, raised_a = fire(build.calculator(cfg), shot, base)
+    calc = build.calculator(cfg)       # one calculator serves every request of the case, as a user's would
+    if case.get("zero_first_ft"):
+        with monitors.quiet():
+            try:
+                calc.set_weapon_zero(shot, Distance.Foot(case["zero_first_ft"]))
+            except (pb.ZeroFindingError, pb.RangeError):
+                pass
+    zero_raw = shot.weapon.zero_elevation.raw_value
+    rows_a, raised_a = fire(calc, shot, base)
     if raised_a:
         ctx.count("rangeerror_results")
         rows_a = rows_a[:-1]
     for var in case["variants"]:
         req = var["request"]
-        rows_b, raised_b = fire(build.calculator(cfg), build.shot(case["shot"]), req)
+        shot_b = build.shot(case["shot"])
+        shot_b.weapon.zero_elevation = pb.Angular.Radian(zero_raw)
+        rows_b, raised_b = fire(calc if var.get("same_calculator", True) else build.calculator(cfg), shot_b, req)
         if raised_b:
             ctx.count("rangeerror_results")
             rows_b = rows_b[:-1]
         ctx.count("request_pairs")
+        ctx.count("same_calculator_requests" if var.get("same_calculator", True) else "fresh_calculator_requests")
         ctx.count("variant_" + var["kind"])
         c = {"shot": case["shot"], "config": cfg, "base": base, "variants": [var]}
         pairs = match(rows_a, rows_b)
@@ -156,7 +167,10 @@ def gen_case(rng):
     sub = step / max(1, round(step / 0.3))
     if 0.26 <= sub < 0.5 and not reach:
         variants.append({"kind": "sub_step", "request": dict(base, step_ft=sub, range_ft=min(r, 4 * step)), "expect_superset": False})
-    case = {"shot": s, "base": base, "variants": variants}
+    for v in variants:
+        v["same_calculator"] = rng.random() < 0.8
+    rng.shuffle(variants)
+    case = {"shot": s, "base": base, "variants": variants, "zero_first_ft": rng.choice([None, None, 300.0, 900.0])}
     if rng.random() < 0.3:
         case["config"] = {"max_calc_step_size_feet": rng.choice([0.25, 1.0]),
                           "cMinimumVelocity": rng.choice([50.0, 600.0])}
